@@ -12,7 +12,14 @@ Python equivalents of various excel functions
 """
 import math
 import sys
-from decimal import Context, Decimal, ROUND_DOWN, ROUND_HALF_UP, ROUND_UP
+from decimal import (
+    Context,
+    Decimal,
+    localcontext,
+    ROUND_DOWN,
+    ROUND_HALF_UP,
+    ROUND_UP,
+)
 
 import numpy as np
 
@@ -78,8 +85,12 @@ def _multiple(number, significance, rounder):
 
     In binary floating point 0.3 / 0.1 is 2.9999999999999996.
     """
-    significance = Decimal(repr(significance))
-    return float(significance * rounder(Decimal(repr(number)) / significance))
+    with localcontext(_ROUND_CONTEXT):
+        # enough digits for the quotient of any two floats
+        significance = Decimal(repr(significance))
+        result = float(
+            significance * rounder(Decimal(repr(number)) / significance))
+    return NUM_ERROR if math.isinf(result) else result
 
 
 @excel_math_func
@@ -238,8 +249,10 @@ def mod(number, divisor):
 
     # number - divisor * INT(number / divisor), in decimal as the binary
     # floating point remainder of -25 and -0.1 is -0.0999999999999986
-    number, divisor = Decimal(repr(number)), Decimal(repr(divisor))
-    return float(number - divisor * math.floor(number / divisor))
+    with localcontext(_ROUND_CONTEXT):
+        # enough digits for the quotient of any two floats
+        number, divisor = Decimal(repr(number)), Decimal(repr(divisor))
+        return float(number - divisor * math.floor(number / divisor))
 
 
 @excel_helper(cse_params=None, err_str_params=-1, number_params=0)
